@@ -8,8 +8,8 @@ A_PRIMS = 'numpy/stdlib primitives enter as assumed contracts (listed in coverag
 INFO = {}
 
 
-def info(pid, explanation, unverified, assumptions=(), level='other'):
-    INFO[pid] = {'level': level, 'explanation': explanation, 'unverified': list(unverified),
+def info(pid, explanation, unverified, assumptions=(), level='other', configs=('compiled',)):
+    INFO[pid] = {'level': level, 'explanation': explanation, 'unverified': list(unverified), 'configs': list(configs),
                  'assumptions': [A_INT, A_REAL, A_ENGINE, A_PRIMS] + list(assumptions)}
 
 info('C20',
@@ -42,3 +42,30 @@ info('C14',
       'self.trunc_err/self.evolved_time (the latter is checked syntactically on every run)',
       'lemma sum(xs*n) == n*sum(xs) for list repetition is built into seg_weight',
       'consistency_check(max_trunc_err) assumed not to raise'])
+
+BOTH = ('compiled', 'python')
+A_BUILD = ('compiled configuration = extension rebuilt from the current tenpy/linalg/_npc_helper.pyx in a scratch copy '
+           '(never the prebuilt .so); python configuration = TENPY_NO_CYTHON=1')
+
+info('C01',
+     'P: _iter_common_sorted (all matches, in order; loop invariant, termination), LegCharge.get_qindex (block/offset of a flat index; '
+     'IndexError iff out of range), Array.get_leg_index, label helpers. '
+     'B (bounded, not proof): dense-numpy postcondition (values, labels, qtotal, error class) of every public operation over '
+     'generated charge structures in both configurations; zero-size stored blocks in separate interpreters.',
+     ['dense equality of tensordot/combine/split/svd workers for unbounded structures (BLAS numerics): bounded only',
+      'ibinary_blockwise merge loop: bounded only so far'],
+     [A_BUILD], configs=BOTH)
+info('C02',
+     'P: shared obligations of C01 (_iter_common_sorted precondition/postcondition). '
+     'B (bounded, not proof): after every step of generated operation histories (incl. in-place methods, shallow copies) '
+     'test_sanity() passes and every cached claim (sorted, bunched, _qdata_sorted), recomputed from its definition, is truthful; '
+     'all LegCharge constructors/transformations; qtotal is the documented function; both configurations.',
+     ['flag protocol as deductive obligations over charges.py: not yet under contract (bounded only)'],
+     [A_BUILD], configs=BOTH)
+info('C03',
+     'B (bounded, not proof): fingerprints (dense values, leg identity and content incl. flags, labels, qtotal) of every operand '
+     'unchanged after every non-in-place operation; in-place methods on a deep copy never change the source; '
+     'ChargeInfo.make_valid leaves its argument alone; both configurations.',
+     ['frame conditions by freshness analysis (effects mode of the interpreter): not built; bounded only',
+      'MPS/MPO level aliasing: bounded only'],
+     [A_BUILD], configs=BOTH)
